@@ -68,6 +68,9 @@ func (p *watPrinter) Fprint(w io.Writer, m *ast.Module) error {
 	if err := p.printFuncs(); err != nil {
 		return err
 	}
+	if p.m.Start != "" {
+		fmt.Fprintf(p.w, "%s(start %s)\n", p.indent, watPrinter_identOrIndex(p.m.Start))
+	}
 	if err := p.printData(); err != nil {
 		return err
 	}
